@@ -417,3 +417,32 @@ Proof.
   rewrite !wait_next_match. rewrite arrivals_app_stop; [reflexivity|].
   cbn [arrivals]. destruct b; reflexivity.
 Qed.
+
+(* ------------------------------------------------------------------ sequences from one producer *)
+Definition msg_args (m : prod_msg) : Z * Z * list Z :=
+  match m with PSend c r d => (c, r, d) | PReset r d => (0, r, d) end.
+
+Definition msg_ok (m : prod_msg) : Prop :=
+  let '(c, r, _) := msg_args m in 0 <= c < 65536 /\ 0 <= r < 256.
+
+Fixpoint msg_entries (ts : Z) (msgs : list prod_msg) : list entry :=
+  match msgs with
+  | [] => []
+  | m :: r => let '(c, g, d) := msg_args m in mkE c g (pad_data d) ts :: msg_entries (ts + 1) r
+  end.
+
+(* every message is decoded with ITS OWN data, zero padded, whatever was sent before it *)
+Lemma producer_sequence msgs : forall s ts, Forall msg_ok msgs ->
+  s_log (produce_all s ts msgs) = s_log s ++ msg_entries ts msgs.
+Proof.
+  induction msgs as [|m r IH]; intros s ts H; cbn [produce_all msg_entries].
+  - now rewrite app_nil_r.
+  - inversion H as [|x y Hm Hr]; subst.
+    assert (E : exists c g d, msg_args m = (c, g, d) /\ producer_msg m = producer_send c g d).
+    { destruct m as [c g d|g d]; cbn; eauto. }
+    destruct E as [c [g [d [Ea Ep]]]]. unfold msg_ok in Hm. rewrite Ea in *. destruct Hm as [Hc Hg].
+    destruct (roundtrip_general c g d ts Hc Hg) as [f [H1 [H2 H3]]].
+    rewrite Ep, H1, IH by assumption.
+    unfold feed1, on_emcy. cbn [fst snd]. rewrite H3. cbn [rbind record_entry s_log].
+    now rewrite <- app_assoc.
+Qed.
